@@ -29,6 +29,7 @@ type memRegister struct {
 	onAttempt func() // called (outside the lock) at every update attempt
 
 	kv map[string]string // SaveKV / GetKV
+	metaEpoch int64      // modification index of the namespace meta
 
 	// one (feed, ack) pair per WatchDataNodes caller (the main and the learner placement driver)
 	watchers   []*watcher
@@ -94,10 +95,14 @@ func (r *memRegister) GetRemoteNamespaceReplicaInfo(ns string, partition int) (*
 	return &p.PartitionReplicaInfo, nil
 }
 func (r *memRegister) GetNamespaceMetaInfo(ns string) (cluster.NamespaceMetaInfo, error) {
+	r.mu.Lock()
+	defer r.mu.Unlock()
 	if ns != r.ns {
 		return cluster.NamespaceMetaInfo{}, cluster.ErrKeyNotFound
 	}
-	return r.meta.DeepClone(), nil
+	m := r.meta.DeepClone()
+	m.VerifSetMetaEpoch(cluster.EpochType(r.metaEpoch))
+	return m, nil
 }
 func (r *memRegister) GetNamespaceInfo(ns string) ([]cluster.PartitionMetaInfo, error) {
 	r.mu.Lock()
@@ -187,6 +192,18 @@ func (r *memRegister) deliver(l []cluster.NodeInfo) {
 }
 func (r *memRegister) CreateNamespace(ns string, meta *cluster.NamespaceMetaInfo) error { return nil }
 func (r *memRegister) UpdateNamespaceMetaInfo(ns string, meta *cluster.NamespaceMetaInfo, oldGen cluster.EpochType) error {
+	r.mu.Lock()
+	defer r.mu.Unlock()
+	if ns != r.ns {
+		return cluster.ErrKeyNotFound
+	}
+	if int64(oldGen) != r.metaEpoch {
+		return errCAS
+	}
+	r.counter++
+	r.metaEpoch = r.counter
+	r.meta = meta.DeepClone()
+	meta.VerifSetMetaEpoch(cluster.EpochType(r.metaEpoch))
 	return nil
 }
 func (r *memRegister) CreateNamespacePartition(ns string, partition int) error { return nil }
